@@ -11,8 +11,9 @@
      every positive value of EVERY width (8/16/32/64, signed and unsigned) for isPowerOfTwo, ceil/floor/roundPowerOfTwo (results that are
      representable), every non-zero value for gtx lowestBitValue, every 32-bit value for nlz -- through C05's ladder theorems
      (P_C05_msb.smear_all: the smear ladder yields the run of ones up to the top bit; findMSB = log2; findLSB = trailing zeros).
-   NOT theorems (correspondence + oracle only): findNSB, highestBitValue / powerOfTwoAbove / Below / Nearest (loops) and sqrt on 32/64-bit
-   values beyond the ranges above; floating ceil/floor/roundMultiple beyond the dyadic grid model.
+     gtx highestBitValue (the loop that clears the lowest set bit), powerOfTwoAbove / Below / Nearest for every positive value, and findNSB for every
+     value and count (binary search over bit counts: window invariant) -- P_C18_pow2, P_C18_nsb.
+   NOT theorems (correspondence + oracle only): sqrt on 32-bit values beyond the range above; floating ceil/floor/roundMultiple beyond the dyadic grid model.
    Refuted statements = known findings (known_findings.txt): the rotations' direction, roundMultiple,
    floor/roundPowerOfTwo of negative values, roundPowerOfTwo on 8/16-bit types above the top power, pow(x<0, 0),
    bitfieldFillOne/Zero on 64-bit values. *)
@@ -21,7 +22,7 @@ Import ListNotations.
 From GLMV Require Import OrHom.
 From GLMM Require Import Half IntFn BitUtil.
 From W Require A_C18_defs Gen_C18_ladders P_C18_ladders P_C18_w8 P_C18_w16_0 P_C18_w16_1 P_C18_w16_2 P_C18_w16_3 P_C18_w16_4 P_C18_w16_5 P_C18_w16_6 P_C18_w16_7
-  P_C18_sqrt_0 P_C18_sqrt_1 P_C18_sqrt_2 P_C18_sqrt_3 P_C18_general P_C05_count P_C18_pow2.
+  P_C18_sqrt_0 P_C18_sqrt_1 P_C18_sqrt_2 P_C18_sqrt_3 P_C18_general P_C05_count P_C18_pow2 P_C18_nsb.
 Import A_C18_defs Gen_C18_ladders.
 Local Open Scope Z_scope.
 
@@ -121,6 +122,20 @@ Theorem C18_roundPowerOfTwo_every_positive_value : forall sg w x, P_C05_count.wi
 Proof. exact P_C18_pow2.roundPowerOfTwo_pos. Qed.
 Theorem C18_lowestBitValue_every_nonzero_value : forall sg w x, P_C05_count.width w -> in_T sg w x = true -> x <> 0 -> umod w (lowestBitValue sg w x) = 2 ^ findLSB sg w x.
 Proof. exact P_C18_pow2.lowestBitValue_all. Qed.
+Theorem C18_highestBitValue_every_positive_value : forall sg w x, P_C05_count.width w -> 0 < x <= maxT sg w -> highestBitValue sg w x = floor_pow2 x.
+Proof. exact P_C18_pow2.highestBitValue_pos. Qed.
+Theorem C18_powerOfTwoBelow_every_positive_value : forall sg w x, P_C05_count.width w -> 0 < x <= maxT sg w -> powerOfTwoBelow sg w x = floor_pow2 x.
+Proof. exact P_C18_pow2.powerOfTwoBelow_pos. Qed.
+Theorem C18_powerOfTwoAbove_every_positive_value : forall sg w x, P_C05_count.width w -> 0 < x <= maxT sg w -> ceil_pow2 x <= maxT sg w -> powerOfTwoAbove sg w x = ceil_pow2 x.
+Proof. exact P_C18_pow2.powerOfTwoAbove_pos. Qed.
+Theorem C18_powerOfTwoNearest_every_positive_value : forall sg w x, P_C05_count.width w -> 0 < x <= maxT sg w -> ceil_pow2 x <= maxT sg w -> nearest_pow2 x (powerOfTwoNearest sg w x) = true.
+Proof. exact P_C18_pow2.powerOfTwoNearest_pos. Qed.
+(* findNSB(x, n), n >= 1: -1 when x has fewer than n set bits, otherwise the position r of a set bit with exactly n - 1 set bits below it *)
+Theorem C18_findNSB_every_value_and_count : forall sg w x n, P_C05_count.width w -> 1 <= n ->
+  let u := umod w x in
+  (bitCount sg w x < n -> findNSB sg w x n = -1) /\
+  (n <= bitCount sg w x -> let r := findNSB sg w x n in 0 <= r < w /\ Z.testbit u r = true /\ GLMV.PopLadder.pc (Z.to_nat r) u = n - 1).
+Proof. exact P_C18_nsb.findNSB_all. Qed.
 Theorem C18_nlz_every_value : forall x, 0 <= x < 2 ^ 32 -> nlz x = if x =? 0 then 32 else 31 - Z.log2 x.
 Proof. exact P_C18_pow2.nlz_all. Qed.
 Example C18_pow2_example : ceilPowerOfTwo false 64 9223372036854775807 = 9223372036854775808 /\ floorPowerOfTwo true 32 2147483647 = 1073741824 /\ isPowerOfTwo false 32 2147483648 = true.
@@ -157,3 +172,5 @@ Print Assumptions C18_mod_int.
 Print Assumptions C18_ceilPowerOfTwo_every_positive_value.
 Print Assumptions C18_roundPowerOfTwo_every_positive_value.
 Print Assumptions C18_lowestBitValue_every_nonzero_value.
+Print Assumptions C18_highestBitValue_every_positive_value.
+Print Assumptions C18_findNSB_every_value_and_count.
